@@ -10,7 +10,7 @@ def runner(trace, render):
     return e3lite.run(trace, render)
 
 
-def gdb_session(seed, n, quit_at_end=True, cmd_rate=0.2, destroy_rate=0.12, init_break=0.5):
+def gdb_session(seed, n, quit_at_end=True, cmd_rate=0.2, destroy_rate=0.12, init_break=0.5, exits=0.0):
     r = random.Random(seed)
     d = protoextract.load()
     addrs = ['gdb_conn:0x5555aa10', 'gdb_conn:0x5555bb20', 'gdb_conn:0x7ffff0c0'][:r.randint(1, 3)]
@@ -27,6 +27,9 @@ def gdb_session(seed, n, quit_at_end=True, cmd_rate=0.2, destroy_rate=0.12, init
             ev.append({'in': {'e': 'invoke', 'cmd': cmd}})
             if cmd['c'] == 'quit':
                 break
+            continue
+        if exits and r.random() < exits:
+            ev.append({'in': {'e': 'exit'}})       # the program exits (and is run again: later events are of the new run)
             continue
         a = r.choice(addrs)
         if c < cmd_rate + destroy_rate:
@@ -56,7 +59,7 @@ def gdb_batch(ctx, rep, prop_relevant, n, salt, **kw):
     validated by TraceGdb, judged on the property's own aspects"""
     def it():
         for k in range(n):
-            opts = dict(cmd_rate=0.25, destroy_rate=0.04, init_break=0.3)
+            opts = dict(cmd_rate=0.25, destroy_rate=0.04, init_break=0.3, exits=0.03)
             opts.update(kw)
             yield gdb_session(ctx.seed * salt + k, ctx.rnd.randint(20, 50), quit_at_end=False, **opts), {'dialect': 'new'}, 'gdb-mode'
     sessionprop.run_sessions(ctx, rep, it(), prop_relevant, runner=runner, spec=SPEC, label='GDB mode')
